@@ -51,6 +51,35 @@ PLANS = {
                        "options of the signal block named like the field and of no other; names follow struct_names(...) over "
                        "sorted-by-field-id fields; generate() resets the state so its result is a function of (schema, binding, context)",
     },
+    "C05": {
+        "targets": ["fcp_dbc.dbc_writer:_make_signals"] + ENCODING,
+        "native": "dbc",
+        "trusted": [
+            "ASSUMED (not proved): cantools Signal/Message objects and Database.as_dbc_string carry exactly the constructor arguments, and an "
+            "independent DBC reader recovers them (assumed contracts ext:cantools...Signal, ...BaseConversion.factory)",
+            "write_dbc (per-bus grouping, frame id, message name) is NOT under contract: defaultdict/lambda plumbing is outside the engine's subset; "
+            "only the native replay exercises it",
+            "math.ceil(x / 8) on exact rationals; str.replace is one fixed function (same term in code and spec)",
+        ],
+        "explanation": "the repo-side half of the statement: _make_signals maps layout piece i to a signal with the piece's position (+7 for "
+                       "non-little-endian), width, byte order, signedness, float marking, unit and multiplexing, dlc == ceil(bits/8), and raises iff "
+                       "the message exceeds 64 bits; the layout itself is C04's cone (included)",
+    },
+    "C14": {
+        "targets": ["fcp_dbc.dbc_writer:_make_signals", "fcp.encoding:PackedEncoder._get_type_length", "fcp.encoding:PackedEncoder._generate_signal",
+                    "fcp.encoding:PackedEncoder._generate_struct", "fcp.encoding:PackedEncoder._generate_array_type",
+                    "fcp.encoding:PackedEncoder._generate_compound_type", "fcp.encoding:PackedEncoder._generate",
+                    "fcp.encoding:PackedEncoder.generate", "fcp.codegen:GeneratorManager.generate", "fcp.codegen:CodeGenerator.gen"],
+        "native": "dbc",
+        "trusted": [
+            "write_dbc / fcp_dbc Generator.generate and the C plug-in's check_impl_size are not under contract (known finding KF-F16 for the latter)",
+            "as C04, C05, C10",
+        ],
+        "explanation": "corollary of contracts: _get_type_length raises ValueError exactly for types without a static packed size and the raise "
+                       "propagates through every recursive member of PackedEncoder (no_raise_if clauses), so generate(impl) raises for any struct "
+                       "containing a string / dynamic array / optional at any depth; _make_signals raises iff the message exceeds 64 bits; the tiling "
+                       "invariant excludes overlaps and signals beyond the message; by C10's gating contract nothing is written when generation fails",
+    },
     "C10": {
         "targets": ["fcp.codegen:_handle_file", "fcp.codegen:_handle_print", "fcp.codegen:handle_result", "fcp.codegen:CodeGenerator.gen",
                     "fcp.codegen:GeneratorManager.generate"],
